@@ -452,6 +452,13 @@ func scenarios() []hx.Scenario {
 			add("legacy ", full, mc.Options{Delay: true, MinBound: 2, Bound: 3, AutoClock: true, Horizon: horizon, TimerSem: mc.TimerLegacy}, len(sc) > 2)
 		}
 	}
+	// co-prime periods (2 s and 3 s) and equal periods next to each other, over a
+	// longer horizon so that their activations coincide at 6 s
+	A3 := op{kind: 'A', d: 30}
+	for _, sc := range [][]op{{A2, A3, S}, {S, A2, A3}, {A3, S, A2}, {A2, A3, S, Z25, R0}, {A1, A1, S}, {A2, A3, S, Z25, E}} {
+		full := append(append([]op(nil), sc...), G)
+		add("coprime ", full, mc.Options{Delay: true, MinBound: 2, Bound: 3, AutoClock: true, Horizon: 6500 * time.Millisecond, MaxSteps: 9000}, false)
+	}
 	// clock jumps over several activations (timeline mode, scripted clock only)
 	for _, steps := range [][]time.Duration{
 		{2500 * time.Millisecond, 2500 * time.Millisecond},
